@@ -36,6 +36,7 @@ def instances(tier, rng):
             if cls == "kMinPathError":
                 extra.append({"sws": sorted(set(u["pweights"])) + [1]})
                 extra.append({"plr": [[0, 2], [3, 20]], "plf": [[1, 1], [2, 1]]})
+                extra.append({"plr": [[0, 1], [2, 20]], "plf": [[2, 1], [1, 1]], "sws": sorted(set(u["pweights"])) + [1]})   # both
             es = C.route_edges(rng.choice(u["proutes"]))
             extra.append({"cons": [es[:2]]})
             for cfg in feats + rng.sample(extra, 2 if quick else 5):
